@@ -123,7 +123,7 @@ def judge(entries, cb):
 def run(tier, seed, replay=None):
     assert_repo_import()
     chk = Check("C07", tier, seed)
-    model_ok = chk.proof_stage(["Agg/Codebase.vo"])
+    model_ok = chk.proof_stage(["Agg/Codebase.vo", "Agg/CodebaseProofs.vo"])
     cases = []
 
     def one(entries, tag):
